@@ -102,14 +102,52 @@ func union(a, b string) string {
 	return out
 }
 
+// detect: the alphabet goalign's documented character sets give to the rows when it is not forced (letters
+// in either case): nucleotide codes ACGT RYSWKMBDHVN U O X, amino acids the 20 + B Z X, specials - . * ?;
+// compatible with both = nucleotides
+func detect(rows []gen.Row) string {
+	const both = "ACBRG?-.*DKSHMNVXTWY"
+	isnt, isaa := true, true
+	for _, r := range rows {
+		for i := 0; i < len(r.Seq); i++ {
+			c := string([]byte{fold(r.Seq[i])})
+			inBoth := strings.Contains(both, c)
+			isnt = isnt && (inBoth || strings.Contains("UO", c))
+			isaa = isaa && (inBoth || strings.Contains("QEILFPZ", c))
+		}
+	}
+	switch {
+	case isnt:
+		return "nt"
+	case isaa:
+		return "aa"
+	}
+	return "unknown"
+}
+
+// alphaOf: the alphabet of the alignment object: the forced one, or the detected one for "auto"
+func alphaOf(a gen.Ali) string {
+	if a.Alphabet == "auto" {
+		return detect(a.Rows)
+	}
+	return a.Alphabet
+}
+
+// decided: detection of these rows gives the intended alphabet whatever the reading of the letters that
+// both alphabets share (nucleotide rows always; protein rows need a letter that is no nucleotide code)
+func decided(rows []gen.Row, alphabet string) bool { return detect(rows) == alphabet }
+
 // replacement interprets the replacement mode: a fixed byte, or MAJ; ok=false for an unknown word
 func replacement(mode, alphabet string) (rep byte, maj, ok bool) {
 	switch {
 	case mode == "" || mode == "AMBIG":
-		if alphabet == "aa" {
+		switch alphabet {
+		case "aa":
 			return 'X', false, true
+		case "nt":
+			return 'N', false, true
 		}
-		return 'N', false, true
+		return 0, false, false
 	case mode == "GAP":
 		return '-', false, true
 	case mode == "MAJ":
@@ -184,7 +222,7 @@ func maskColumns(o *pbt.Outcome, rows []gen.Row, alphabet string, ref int, cols 
 // modelMask: Mask(refseq, start, length, replace, nogap, noref)
 func modelMask(o *pbt.Outcome, a gen.Ali, refName string, start, length int, mode string, nogap, noref bool) maskModel {
 	rows, l := a.Rows, aliLen(a)
-	_, _, ok := replacement(mode, a.Alphabet)
+	_, _, ok := replacement(mode, alphaOf(a))
 	ref := rowIndex(rows, refName)
 	if start < 0 || start > l || !ok || (refName != "" && noref && ref < 0) {
 		return maskModel{Err: true}
@@ -204,7 +242,7 @@ func modelMask(o *pbt.Outcome, a gen.Ali, refName string, start, length int, mod
 	for i := start; i < end; i++ {
 		cols = append(cols, i)
 	}
-	m.Cols = maskColumns(o, rows, a.Alphabet, ref, cols, mode, nogap, noref)
+	m.Cols = maskColumns(o, rows, alphaOf(a), ref, cols, mode, nogap, noref)
 	return m
 }
 
@@ -214,7 +252,7 @@ func modelMask(o *pbt.Outcome, a gen.Ali, refName string, start, length int, mod
 // counting cells of the column carry its residue.
 func modelOccurences(o *pbt.Outcome, a gen.Ali, refName string, k int, mode string) maskModel {
 	rows, l := a.Rows, aliLen(a)
-	rep, maj, ok := replacement(mode, a.Alphabet)
+	rep, maj, ok := replacement(mode, alphaOf(a))
 	ref := rowIndex(rows, refName)
 	if !ok || (refName != "" && ref < 0) {
 		return maskModel{Err: true}
@@ -355,8 +393,8 @@ func uni(t *rapid.T, n int, label string) int {
 }
 
 // (a repeated '-' raises the share of gaps)
-var ntSets = []string{"ACGT--", "AC-", "ACGTN--", "ACGT-.", "ACacGT--", "ACGTRY--N"}
-var aaSets = []string{"ARND--", "AR-", "ARNDCQEGHX---", "ARND-.", "ARarND--", "LKMFPSTWYV*---"}
+var ntSets = []string{"ACGT--", "AC-", "ACGTN--", "ACGT-.", "ACacGT--", "ACGTRY--N", "ACGUacgu--", "ACGTacgtuo--"}
+var aaSets = []string{"ARND--", "AR-", "ARNDCQEGHX---", "ARND-.", "ARarND--", "LKMFPSTWYV*---", "LKMFlkmfqe--", "ARNDqeilfpz--"}
 
 func genAli(t *rapid.T, maxRows, maxLen int) gen.Ali {
 	set := uni(t, len(ntSets), "letters")
@@ -364,10 +402,56 @@ func genAli(t *rapid.T, maxRows, maxLen int) gen.Ali {
 	if rapid.Bool().Draw(t, "protein") {
 		alphabet, chars = "aa", aaSets[set]
 	}
+	var a gen.Ali
 	if uni(t, 3, "rowwise") == 0 {
-		return gen.Rect(t, chars, 1, maxRows, 1, maxLen, alphabet)
+		a = gen.Rect(t, chars, 1, maxRows, 1, maxLen, alphabet)
+	} else {
+		a = gen.Columnwise(t, chars, 1, maxRows, 1, maxLen, alphabet)
 	}
-	return gen.Columnwise(t, chars, 1, maxRows, 1, maxLen, alphabet)
+	// the alphabet is forced, or - when the letters decide - detected the way every reader does it
+	if decided(a.Rows, alphabet) && uni(t, 3, "autoalphabet") == 0 {
+		a.Alphabet = "auto"
+	}
+	return a
+}
+
+// genPlan draws, for one case in three, a chain of public operations that ends on the content of a
+func genPlan(t *rapid.T, a gen.Ali) gen.Plan {
+	if uni(t, 3, "prov") != 0 {
+		return gen.Plan{}
+	}
+	junk := "ACGT-"
+	if alphaOf(a) == "aa" {
+		junk = "ARNDLKMFqe-"
+	}
+	return gen.DrawPlan(t, a, junk, 3)
+}
+
+// build constructs the alignment object: freshly, or through the plan; an "auto" alphabet is detected on
+// the final content (AutoAlphabet, as the readers do)
+func build(o *pbt.Outcome, a gen.Ali, p gen.Plan) align.Alignment {
+	var al align.Alignment
+	if len(p.Steps) == 0 {
+		o.Class("provenance=fresh")
+		al = gen.MustBuild(a)
+	} else {
+		seen := map[string]bool{}
+		for _, k := range p.Kinds() {
+			if !seen[k] {
+				seen[k] = true
+				o.Class("provenance=%s", k)
+			}
+		}
+		var ok bool
+		if al, ok = gen.BuildVia(a, p); !ok {
+			o.Class("provenance-unusable")
+			al = gen.MustBuild(a)
+		}
+	}
+	if a.Alphabet == "auto" {
+		al.AutoAlphabet()
+	}
+	return al
 }
 
 var literals = []string{"?", "-", "n", "*", "A", ".", "X"}
@@ -466,13 +550,14 @@ func modeKind(mode string) string {
 // ---- Mask ---------------------------------------------------------------------------------------------
 
 type maskCase struct {
-	Ali     gen.Ali `json:"ali"`
-	Ref     string  `json:"ref"`
-	Start   int     `json:"start"`
-	Len     int     `json:"len"`
-	Replace string  `json:"replace"`
-	NoGap   bool    `json:"nogap"`
-	NoRef   bool    `json:"noref"`
+	Plan    gen.Plan `json:"plan"`
+	Ali     gen.Ali  `json:"ali"`
+	Ref     string   `json:"ref"`
+	Start   int      `json:"start"`
+	Len     int      `json:"len"`
+	Replace string   `json:"replace"`
+	NoGap   bool     `json:"nogap"`
+	NoRef   bool     `json:"noref"`
 }
 
 func genMask(t *rapid.T) maskCase {
@@ -483,16 +568,19 @@ func genMask(t *rapid.T) maskCase {
 	c.Replace = genMode(t)
 	c.NoGap = rapid.Bool().Draw(t, "nogap")
 	c.NoRef = rapid.Bool().Draw(t, "noref")
+	c.Plan = genPlan(t, c.Ali)
 	return c
 }
 
 func checkMask(c maskCase) (o pbt.Outcome, err error) {
 	rows, l := c.Ali.Rows, aliLen(c.Ali)
-	al := gen.MustBuild(c.Ali)
+	al := build(&o, c.Ali, c.Plan)
+	lengthBefore := al.Length()
 	m := modelMask(&o, c.Ali, c.Ref, c.Start, c.Len, c.Replace, c.NoGap, c.NoRef)
 	e := al.Mask(c.Ref, c.Start, c.Len, c.Replace, c.NoGap, c.NoRef)
 	what := fmt.Sprintf("Mask(ref=%q, start=%d, length=%d, replace=%q, nogap=%v, noref=%v) on %d columns", c.Ref, c.Start, c.Len, c.Replace, c.NoGap, c.NoRef, l)
-	rewritten, _, err := judge(m, rows, gen.Snapshot(al), al.Length(), e, what)
+	// the selection is judged on the rows read back by index, over their full length; Length() must not change
+	rewritten, _, err := judge(m, rows, gen.Snapshot(al), l+al.Length()-lengthBefore, e, what)
 	if err != nil {
 		return
 	}
@@ -515,6 +603,9 @@ func checkMask(c maskCase) (o pbt.Outcome, err error) {
 	o.Class("mask nogap=%v noref=%v ref=%s", c.NoGap, c.NoRef, refKind)
 	o.Class("mask window=%s", windowKind(l, c.Start, c.Len))
 	o.Class("alphabet=%s", c.Ali.Alphabet)
+	if c.Ali.Alphabet == "auto" {
+		o.Class("alphabet=auto detected as %s", alphaOf(c.Ali))
+	}
 	if m.Err {
 		o.Class("mask:error-expected")
 	}
@@ -526,11 +617,12 @@ func TestMask(t *testing.T) { pbt.Run(t, genMask, checkMask) }
 // ---- MaskOccurences / MaskUnique --------------------------------------------------------------------------
 
 type occCase struct {
-	Ali     gen.Ali `json:"ali"`
-	Ref     string  `json:"ref"`
-	K       int     `json:"k"`
-	Replace string  `json:"replace"`
-	Unique  bool    `json:"unique"` // call MaskUnique (k = 1) instead of MaskOccurences
+	Plan    gen.Plan `json:"plan"`
+	Ali     gen.Ali  `json:"ali"`
+	Ref     string   `json:"ref"`
+	K       int      `json:"k"`
+	Replace string   `json:"replace"`
+	Unique  bool     `json:"unique"` // call MaskUnique (k = 1) instead of MaskOccurences
 }
 
 func genOcc(t *rapid.T) occCase {
@@ -547,12 +639,14 @@ func genOcc(t *rapid.T) occCase {
 	if c.Unique {
 		c.K = 1
 	}
+	c.Plan = genPlan(t, c.Ali)
 	return c
 }
 
 func checkOcc(c occCase) (o pbt.Outcome, err error) {
 	rows := c.Ali.Rows
-	al := gen.MustBuild(c.Ali)
+	al := build(&o, c.Ali, c.Plan)
+	lengthBefore := al.Length()
 	m := modelOccurences(&o, c.Ali, c.Ref, c.K, c.Replace)
 	var e error
 	what := ""
@@ -563,7 +657,7 @@ func checkOcc(c occCase) (o pbt.Outcome, err error) {
 		e = al.MaskOccurences(c.Ref, c.K, c.Replace)
 		what = fmt.Sprintf("MaskOccurences(ref=%q, max=%d, replace=%q)", c.Ref, c.K, c.Replace)
 	}
-	rewritten, kept, err := judge(m, rows, gen.Snapshot(al), al.Length(), e, what)
+	rewritten, kept, err := judge(m, rows, gen.Snapshot(al), len(rows[0].Seq)+al.Length()-lengthBefore, e, what)
 	if err != nil {
 		return
 	}
